@@ -6,6 +6,7 @@ mod c01;
 mod c08;
 mod csvfuzz;
 mod l1;
+mod long;
 mod oracle;
 mod ordersweep;
 mod race;
@@ -34,6 +35,7 @@ fn main() {
         "session" => session::main(rest),
         "ordersweep" => ordersweep::main(rest),
         "race" => race::main(rest),
+        "long" => long::main(rest),
         "csvfuzz" => csvfuzz::main(rest),
         "universe" => universe::main(rest),
         "version" => println!("{:?} {:?}", precis_core::UNICODE_VERSION, precis_profiles::UNICODE_VERSION),
